@@ -163,9 +163,27 @@ class MemioEngine(object):
 
     def sync_pos(self, v):
         try:
-            v.pos = v.obj._offset
+            v.pos = v.obj.tell()
         except Exception:
             pass
+
+    @staticmethod
+    def view_range(obj, fallback=None):
+        """(start, end) addresses of a view through its public interface
+        (address, tell, len); private attributes only as a fall-back for views
+        whose public interface already refuses to answer (closed / freed)."""
+        try:
+            start = obj.address - obj.tell()
+            try:
+                n = len(obj)
+            except ValueError:
+                n = obj._end_address - obj._start_address
+            return start, start + n
+        except Exception:
+            try:
+                return obj._start_address, obj._end_address
+            except AttributeError:
+                return fallback
 
     # -- operations --------------------------------------------------------
     def op_alloc(self, heal=False):
@@ -210,7 +228,7 @@ class MemioEngine(object):
             self.end(type(val).__name__)
             return None
         obj = val
-        start = obj._start_address
+        start = self.view_range(obj)[0]
         blk = ch.sdram.find(start)
         if blk is None or blk[1] - 8 < size:
             w.violate("A", "returned view starts at %#x which is not a block "
@@ -303,15 +321,15 @@ class MemioEngine(object):
             sl = allocations[vx][par.SDRAM]
             size = sl.stop - sl.start
             xy = placements[vx]
-            blk = self.m.chips[xy].sdram.find(obj._start_address)
+            o_start = self.view_range(obj)[0]
+            blk = self.m.chips[xy].sdram.find(o_start)
             if blk is None or blk[1] - 8 < size or len(obj) != size:
                 w.violate("A", "view for %s is not a %d byte allocation on "
                           "chip %r" % (vx, size, xy), kind="vertices-alloc")
             root = Root()
             root.freed = False
-            root.ptr = obj._start_address
-            v = self.add_view(obj, xy, obj._start_address,
-                              obj._start_address + size, root, 0)
+            root.ptr = o_start
+            v = self.add_view(obj, xy, o_start, o_start + size, root, 0)
             self.check_static(v)
         self.end("ok")
 
@@ -545,15 +563,15 @@ class MemioEngine(object):
             obj = v.obj[a:b]
         i0, i1, _ = slice(a, b).indices(L)
         ns, ne = v.start + i0, v.start + max(i0, i1)
-        if (obj._start_address, obj._end_address) != (ns, ne) and \
+        o_start, o_end = self.view_range(obj, (ns, ne))
+        if (o_start, o_end) != (ns, ne) and \
                 not (v.root.freed or v.closed):
             w.violate("S", "%s[%r:%r] of a %d byte view covers offsets "
                       "[%d, %d); slice.indices gives [%d, %d)"
-                      % (v.name, a, b, L, obj._start_address - v.start,
-                         obj._end_address - v.start, i0, max(i0, i1)),
+                      % (v.name, a, b, L, o_start - v.start,
+                         o_end - v.start, i0, max(i0, i1)),
                       kind="slice-range")
-        nv = self.add_view(obj, v.xy, obj._start_address, obj._end_address,
-                           v.root, v.depth + 1)
+        nv = self.add_view(obj, v.xy, o_start, o_end, v.root, v.depth + 1)
         # step other than 1 / non-slice index must be rejected
         if t.draw(8) == 0:
             try:
@@ -584,7 +602,7 @@ class MemioEngine(object):
                 w.violate("F", "close() of an open view raised", kind="close")
         v.closed = True
         w.fault("close_at_arbitrary_point")
-        if not v.obj.closed and not v.root.freed:
+        if not getattr(v.obj, "closed", True) and not v.root.freed:
             w.violate("F", "view not marked closed after close()",
                       kind="close")
         self.end("closed")
